@@ -119,6 +119,16 @@ def check_dask(chk, kind, arr, exp_rows, subtype, aff, nparts):
     if not M.rows_equal(tb, want_tb):
         fail(chk, kind, f"dask(npartitions={nparts})", subtype, aff, "", "DaskGeoSeries.total_bounds", tb, want_tb,
              dict(site="DaskGeoSeries.total_bounds"))
+    # partitions without any extent (all missing) at the FIRST, a middle and the last position: the frame's extent is that of the others
+    if len(exp_rows) >= 2:
+        import dask as _dask
+        blank = sp.GeoSeries(type(arr)([None, None], dtype=arr.dtype))
+        half = len(arr) // 2
+        for where, pieces in (("first", [blank, s.iloc[:half], s.iloc[half:]]), ("middle", [s.iloc[:half], blank, s.iloc[half:]]), ("last", [s.iloc[:half], s.iloc[half:], blank])):
+            dsb = dd.from_delayed([_dask.delayed(p_) for p_ in pieces], meta=s.iloc[:0])
+            tbb = [float(v) for v in dsb.total_bounds]
+            if not M.rows_equal(tbb, want_tb):
+                fail(chk, kind, f"dask, all-missing partition {where}", subtype, aff, "", "DaskGeoSeries.total_bounds", tbb, want_tb, dict(site="DaskGeoSeries.total_bounds", derivation="blank-" + where))
     # a frame whose partition bounds are already cached, then row-filtered: the filtered frame's extents are its own
     if len(exp_rows) >= 4:
         df = sp.GeoDataFrame({"id": np.arange(len(arr)), "geometry": arr})
